@@ -498,6 +498,62 @@ fn run_fn<F: MathFunction + Function<Trace = fidget_core::vm::VmTrace>>(
     Ok(results)
 }
 
+/// "Output arrays have exactly the requested number of outputs and samples"
+/// also for an evaluator object that has just served a wider or a narrower
+/// function with another batch size: all four evaluator kinds, one object each,
+/// used on `first` and then on `second`
+fn shapes_after_reuse<F: MathFunction>(
+    what: &str,
+    first: &F,
+    second: &F,
+    n1: usize,
+    n2: usize,
+    cx: &mut Cx,
+) -> CheckResult {
+    let mut pe = F::new_point_eval();
+    let mut ie = F::new_interval_eval();
+    let mut fe = F::new_float_slice_eval();
+    let mut ge = F::new_grad_slice_eval();
+    for (f, n) in [(first, n1), (second, n2)] {
+        let nv = f.vars().len();
+        let want = f.output_count();
+        let t = f.point_tape(Default::default());
+        let (o, _) = pe
+            .eval(&t, &vec![0.5f32; nv])
+            .map_err(|e| Fail::new("eval-error", format!("{e:?}")))?;
+        ensure!(o.len() == want, format!("reused-output-count-{what}"), "point eval on a reused evaluator: {} outputs, the tape has {want}", o.len());
+        let t = f.interval_tape(Default::default());
+        let (o, _) = ie
+            .eval(&t, &vec![Interval::new(0.25, 0.75); nv])
+            .map_err(|e| Fail::new("eval-error", format!("{e:?}")))?;
+        ensure!(o.len() == want, format!("reused-output-count-{what}"), "interval eval on a reused evaluator: {} outputs, the tape has {want}", o.len());
+        let t = f.float_slice_tape(Default::default());
+        let cols = vec![vec![0.5f32; n]; nv];
+        let o = fe
+            .eval(&t, &cols)
+            .map_err(|e| Fail::new("eval-error", format!("{e:?}")))?;
+        ensure!(o.len() == want, format!("reused-output-count-{what}"), "float slice eval on a reused evaluator: {} output arrays, the tape has {want}", o.len());
+        if nv > 0 {
+            for k in 0..want {
+                ensure!(o[k].len() == n, format!("reused-output-len-{what}"), "float slice eval on a reused evaluator: output {k} has {} samples for {n} inputs", o[k].len());
+            }
+        }
+        let t = f.grad_slice_tape(Default::default());
+        let cols = vec![vec![Grad::from(0.5); n]; nv];
+        let o = ge
+            .eval(&t, &cols)
+            .map_err(|e| Fail::new("eval-error", format!("{e:?}")))?;
+        ensure!(o.len() == want, format!("reused-output-count-{what}"), "grad slice eval on a reused evaluator: {} output arrays, the tape has {want}", o.len());
+        if nv > 0 {
+            for k in 0..want {
+                ensure!(o[k].len() == n, format!("reused-output-len-{what}"), "grad slice eval on a reused evaluator: output {k} has {} samples for {n} inputs", o[k].len());
+            }
+        }
+    }
+    cx.ev.count("output_shapes_checked_on_reused_evaluators");
+    Ok(())
+}
+
 impl Prop for P {
     const ID: &'static str = "C20";
     type Case = Case;
@@ -561,6 +617,19 @@ impl Prop for P {
                 "guarded-evaluator-changes-trace",
                 "JIT point traces differ between a fresh evaluator with guard-page arrays and an ordinary one"
             );
+        }
+        // output shapes from evaluator objects that served another function
+        // before: a narrower one (the first output alone) then this one, and
+        // the other way round, with different batch sizes
+        {
+            let n = case.slice_len as usize;
+            let narrow = &roots[..1];
+            let vn = VmFunction::new(&b.ctx, narrow).unwrap();
+            shapes_after_reuse("vm", &vf, &vn, n + 3, n, cx)?;
+            shapes_after_reuse("vm", &vn, &vf, n, n + 9, cx)?;
+            let jn = JitFunction::new(&b.ctx, narrow).unwrap();
+            shapes_after_reuse("jit", &jf, &jn, n + 3, n, cx)?;
+            shapes_after_reuse("jit", &jn, &jf, n, n + 9, cx)?;
         }
         // same trace for the same point, clause by clause, wherever the two
         // evaluators saw bit-identical operands
